@@ -39,7 +39,25 @@ def _literal_int(node: ast.AST) -> int | None:
     return value if type(value) is int else None
 
 
+def _refuse_unaffordable_constants(expression: str) -> None:
+    """Raise NotImplementedError if the expression contains a constant that sympy would compute for
+    ages, or run out of memory on, for example 10 ** 10 ** 8 or 'ab' * 10 ** 12."""
+    try:
+        root = ast.parse(expression)
+    except (SyntaxError, ValueError):
+        return
+
+    for node in core.walk(root, ast.BinOp):
+        constant_only = (ast.BinOp, ast.UnaryOp, ast.Constant, ast.operator, ast.unaryop)
+        if all(isinstance(child, constant_only) for child in ast.walk(node)):
+            try:
+                core.literal_value(node)
+            except ValueError as error:
+                raise NotImplementedError(f"Cannot afford to compute {expression}") from error
+
+
 def _parse_sympy_expr(expression):
+    _refuse_unaffordable_constants(expression)
     return sympy.parsing.sympy_parser.parse_expr(expression)
 
 
@@ -131,6 +149,7 @@ def _simplify_math(f: Callable) -> ast.AST:
 
         # TODO substitute constant calls, attributes and other stuff with variables
 
+        _refuse_unaffordable_constants(source)
         try:
             source = str(sympy.simplify(source))
         except (ArithmeticError, ValueError, TypeError, LookupError, AttributeError) as error:
